@@ -42,3 +42,39 @@ def backend_wiring(ctx, rep, rule, only_fields=None):
             raise core.Incomplete(f'config struct {PARAMS[sec]} not found')
         for pf in ps[0]['fields']:
             rep.check((sec, pf['name']) in consumed, rule, f'{sec}.{pf["name"]}:consumed', 'consumed by its backend', f"language(): the configuration value {sec}.{pf['name']} is never handed to the {be} backend — the setting from typeshare.toml / the command line has no effect", {'file': f['file'], 'line': st['line']})
+
+
+def config_mutations(ctx, prog):
+    """Type-directed inventory (MIR places, so aliases, methods on Config and nested helpers are all seen): every statement in
+    hand-written code of the CLI crate that assigns to, or takes a mutable borrow of, a place inside `config::Config` / a
+    `config::*Params` value.  Returns [(function id, params struct, field name, statement, file, line)]."""
+    import re
+    adts = {a['path']: a for a in ctx.mirq('all')['crates']['typeshare#bin']['adts']}
+    out = []
+    proj = re.compile(r'\.(\d+): (config::(?:\w+Params|Config))\)((?:\.\d+: [^()]*(?:\([^()]*\))?[^()]*\))?)')
+    for k, b in prog.bodies.items():
+        if prog.crate_of[k] != 'typeshare#bin' or b.get('derived') or b.get('exp'):
+            continue
+        for blk in b['blocks']:
+            for st in blk['stmts']:
+                lhs, _, rhs = st.partition(' = ')
+                target = None
+                if 'config::' in lhs and lhs.startswith('('):
+                    target = lhs
+                elif rhs.startswith('&mut ') and 'config::' in rhs:
+                    target = rhs
+                if target is None:
+                    continue
+                # innermost params struct on the path and the field selected from it
+                ms = list(re.finditer(r': (config::(?:\w+Params|Config))\)\.(\d+): ', target))
+                if ms:
+                    owner, idx = ms[-1].group(1), int(ms[-1].group(2))
+                else:
+                    m1 = re.search(r'\.(\d+): (config::(?:\w+Params|Config))\)', target)
+                    if not m1:
+                        continue
+                    owner, idx = 'config::Config', int(m1.group(1))
+                fields = (adts.get(owner) or {}).get('variants', [{}])[0].get('fields', [])
+                fname = fields[idx]['name'] if idx < len(fields) else f'#{idx}'
+                out.append((b['id'], owner, fname, st[:140], b['file'], b['line']))
+    return out
